@@ -4,7 +4,7 @@
   slab test that the tree theorems consume.
 -/
 import PolyVerif.Model.Tree
-import PolyVerif.Props.C17
+import PolyVerif.Lemmas.RealScalar
 import Mathlib.Tactic
 
 namespace PolyVerif
@@ -58,6 +58,51 @@ theorem Inv.children {R : B → E → Prop} {b : B} {es : List E} {cs : List (Oc
   cases h with
   | node _ h2 => exact h2
 
+
+/-! ### facts about the regenerated AABB code (self-contained copies of the few C17 lemmas used here, so that
+    C16 does not depend on another property's file building) -/
+section aabb
+open Gen.geometry
+
+theorem v3_ext {a b : V3 ℝ} (hx : a.x = b.x) (hy : a.y = b.y) (hz : a.z = b.z) : a = b := by
+  cases a; cases b; simp_all
+
+theorem aabb_setMinMax_min (b : AABB ℝ) (mn mx : V3 ℝ) : (b.SetMinMax mn mx).Min = mn := by
+  apply v3_ext <;> simp [AABB.SetMinMax, AABB.Min, V3.Sub, V3.Add, V3.Scale]
+
+theorem aabb_setMinMax_max (b : AABB ℝ) (mn mx : V3 ℝ) : (b.SetMinMax mn mx).Max = mx := by
+  apply v3_ext <;> simp [AABB.SetMinMax, AABB.Max, V3.Sub, V3.Add, V3.Scale] <;> ring
+
+theorem aabb_contains_iff (b : AABB ℝ) (p : V3 ℝ) :
+    b.Contains p = true ↔ (b.Min.x ≤ p.x ∧ b.Min.y ≤ p.y ∧ b.Min.z ≤ p.z ∧ p.x ≤ b.Max.x ∧ p.y ≤ b.Max.y ∧ p.z ≤ b.Max.z) := by
+  simp only [AABB.Contains, V3.X, V3.Y, V3.Z, decide_eq_true_eq]
+  by_cases h1 : p.x < b.Min.x <;> by_cases h2 : p.y < b.Min.y <;> by_cases h3 : p.z < b.Min.z <;>
+  by_cases h4 : b.Max.x < p.x <;> by_cases h5 : b.Max.y < p.y <;> by_cases h6 : b.Max.z < p.z <;>
+  simp [h1, h2, h3, h4, h5, h6] <;> (try (intros; linarith)) <;>
+  (try (refine ⟨?_,?_,?_,?_,?_,?_⟩ <;> linarith))
+
+theorem aabb_encapsulatePoint_contains (b : AABB ℝ) (p : V3 ℝ) :
+    (b.EncapsulatePoint p).Contains p = true := by
+  rw [aabb_contains_iff]
+  simp only [AABB.EncapsulatePoint, aabb_setMinMax_min, aabb_setMinMax_max, minVector, maxVector, V3.New, V3.X, V3.Y, V3.Z]
+  simp
+
+theorem aabb_encapsulatePoint_mono (b : AABB ℝ) (p q : V3 ℝ) (h : b.Contains q = true) :
+    (b.EncapsulatePoint p).Contains q = true := by
+  rw [aabb_contains_iff] at *
+  simp only [AABB.EncapsulatePoint, aabb_setMinMax_min, aabb_setMinMax_max, minVector, maxVector, V3.New, V3.X, V3.Y, V3.Z]
+  obtain ⟨h1, h2, h3, h4, h5, h6⟩ := h
+  refine ⟨?_, ?_, ?_, ?_, ?_, ?_⟩ <;> simp [*]
+
+theorem aabb_closestPoint_in_box (b : AABB ℝ) (v : V3 ℝ)
+    (hx : 0 ≤ b.extents.x) (hy : 0 ≤ b.extents.y) (hz : 0 ≤ b.extents.z) :
+    b.Contains (b.ClosestPoint v) = true := by
+  rw [aabb_contains_iff]
+  simp only [AABB.ClosestPoint, Gen.geometry.clamp, V3.SetX, V3.SetY, V3.SetZ, V3.X, V3.Y, V3.Z, AABB.Min, AABB.Max, V3.Sub, V3.Add]
+  refine ⟨?_, ?_, ?_, ?_, ?_, ?_⟩ <;> simp <;> linarith
+
+end aabb
+
 /-! ### real-number facts about the box code -/
 
 abbrev Box := AABB ℝ
@@ -69,7 +114,7 @@ def BoxSub (A B : Box) : Prop := B.Contains A.Min = true ∧ B.Contains A.Max = 
 theorem contains_mono {A B : Box} (h : BoxSub A B) (v : P3) (hv : A.Contains v = true) :
     B.Contains v = true := by
   obtain ⟨h1, h2⟩ := h
-  rw [C17.aabb_contains_iff] at *
+  rw [aabb_contains_iff] at *
   obtain ⟨a1, a2, a3, a4, a5, a6⟩ := h1
   obtain ⟨b1, b2, b3, b4, b5, b6⟩ := h2
   obtain ⟨c1, c2, c3, c4, c5, c6⟩ := hv
@@ -86,7 +131,7 @@ theorem clamp_between (p lo hi l u : ℝ) (h1 : l ≤ lo) (h2 : l ≤ hi) (h3 : 
 theorem closestPoint_mem_of_sub {A B : Box} (h : BoxSub A B) (p : P3) :
     B.Contains (A.ClosestPoint p) = true := by
   obtain ⟨h1, h2⟩ := h
-  rw [C17.aabb_contains_iff] at *
+  rw [aabb_contains_iff] at *
   obtain ⟨a1, a2, a3, a4, a5, a6⟩ := h1
   obtain ⟨b1, b2, b3, b4, b5, b6⟩ := h2
   simp only [AABB.ClosestPoint, V3.SetX, V3.SetY, V3.SetZ, V3.X, V3.Y, V3.Z]
@@ -112,7 +157,7 @@ theorem clamp_nearest (p lo hi y : ℝ) (h1 : lo ≤ y) (h2 : y ≤ hi) :
 /-- `aabb_lower_bound`: the box's `ClosestPoint` is at least as close to `p` as any point of the box -/
 theorem aabb_lower_bound_aux (B : Box) (p q : P3) (hq : B.Contains q = true) :
     (B.ClosestPoint p).DistanceSquared p ≤ q.DistanceSquared p := by
-  rw [C17.aabb_contains_iff] at hq
+  rw [aabb_contains_iff] at hq
   obtain ⟨a1, a2, a3, a4, a5, a6⟩ := hq
   simp only [AABB.ClosestPoint, V3.SetX, V3.SetY, V3.SetZ, V3.X, V3.Y, V3.Z, V3.DistanceSquared]
   have hx := clamp_nearest p.x B.Min.x B.Max.x q.x a1 a4
@@ -196,7 +241,7 @@ theorem slabComponent_mono (o d tminA tmaxA tminB tmaxB loA hiA loB hiB : ℝ)
 theorem slab_mono {A B : Box} (h : BoxSub A B) (o d : P3) (mn mx : ℝ)
     (hA : intersectsRayInRange A o d mn mx = true) : intersectsRayInRange B o d mn mx = true := by
   obtain ⟨h1, h2⟩ := h
-  rw [C17.aabb_contains_iff] at h1 h2
+  rw [aabb_contains_iff] at h1 h2
   obtain ⟨a1, a2, a3, a4, a5, a6⟩ := h1
   obtain ⟨b1, b2, b3, b4, b5, b6⟩ := h2
   have mx_ := slabComponent_mono o.x d.x mn mx mn mx (A.Min.x - kEps) (A.Max.x + kEps) (B.Min.x - kEps) (B.Max.x + kEps)
